@@ -323,6 +323,8 @@ class PlanJoinTablesQuery:
 
         # workaround for 'model join table': swap tables:
         if len(join_sequence) == 3 and join_sequence[0].predictor_info is not None:
+            # the ON clause also says how the model is joined to the table (columns map)
+            join_sequence[0].join_condition = join_sequence[1].join_condition
             join_sequence = [join_sequence[1], join_sequence[0], join_sequence[2]]
 
         self.check_use_limit(query_in, join_sequence)
